@@ -31,6 +31,12 @@ theorem St.Le.of_map_eq {s t : St} (h : t.map = s.map) : s.Le t := by
 
 @[simp] theorem St.send_map (s : St) (m : Msg) : (s.send m).map = s.map := rfl
 
+@[simp] theorem St.recordAll_map (s : St) (on : Bool) (ds : List Dep) : (s.recordAll on ds).map = s.map := by
+  unfold St.recordAll
+  induction ds generalizing s with
+  | nil => rfl
+  | cons d ds ih => simp only [List.foldl]; rw [ih]; simp
+
 theorem lookup_append_of_none (m : List (Key × Cell)) (k k' : Key) (c : Cell)
     (h : (m.find? (·.1 = k)) = none) (hk : k' ≠ k) :
     ((m ++ [(k, c)]).find? (·.1 = k')) = m.find? (·.1 = k') := by
@@ -89,6 +95,18 @@ theorem St.insertKeepFirst_other (s : St) (k k' : Key) (c : Cell) (h : k' ≠ k)
   · split <;> simp_all
   · rfl
 
+@[simp] theorem St.recordAll_recs_tail (s : St) (on ds) : (s.recordAll on ds).recs.tail = s.recs.tail := by
+  unfold St.recordAll
+  induction ds generalizing s with
+  | nil => rfl
+  | cons d ds ih => simp only [List.foldl]; rw [ih]; simp
+
+@[simp] theorem St.recordAll_recs_length (s : St) (on ds) : (s.recordAll on ds).recs.length = s.recs.length := by
+  unfold St.recordAll
+  induction ds generalizing s with
+  | nil => rfl
+  | cons d ds ih => simp only [List.foldl]; rw [ih]; simp
+
 @[simp] theorem St.insertKeepFirst_recs (s : St) (k c) : (s.insertKeepFirst k c).1.recs = s.recs := by
   unfold St.insertKeepFirst; split <;> rfl
 
@@ -137,7 +155,7 @@ theorem loadAndRecord_shape (env : Env) (body : St → St × Outcome) (key : Key
   obtain ⟨s1, o, d⟩ := r
   cases o with
   | ok v => simp only []; split <;> exact hf
-  | err e => exact hf
+  | err e => exact ⟨by simpa using hf.1, by simpa using hf.2⟩
   | panicked => exact hf
   | diverged => exact hf
 
@@ -153,7 +171,7 @@ theorem loadAndRecord_le (env : Env) (body : St → St × Outcome) (key : Key) (
     split
     · exact hf.trans (St.Le.of_map_eq rfl)
     · exact hf
-  | err e => exact hf
+  | err e => exact hf.trans (St.Le.of_map_eq (by simp))
   | panicked => exact hf
   | diverged => exact hf
 
